@@ -246,9 +246,54 @@ def map_writes(body):
     return out
 
 
+def _typed_meta(body, x):
+    """{key: value_expr} for `serde_json::to_value(&Struct { .. }).unwrap()` with a local `#[derive(Serialize)]` struct: the keys
+    are read off the derived `serialize` (the string handed to each `serialize_field` together with the field it reads), the
+    values off the struct literal.  None for anything else (a hand-written impl with conditions, a struct that came from elsewhere)."""
+    n = 0
+    while x[0] == "call" and x[1].fn in ("core::result::Result::<T, E>::unwrap", "core::result::Result::<T, E>::expect") and x[2] and n < 2:
+        x = q.peel(x[2][0])
+        n += 1
+    if not (x[0] == "call" and x[1].fn.startswith("serde_json::value::to_value") and x[2]):
+        return None
+    a = q.peel(x[2][0])
+    k = 0
+    while a[0] in ("ref", "deref", "copy", "move") and k < 6:
+        a = q.peel(a[1])
+        k += 1
+    if not (a[0] == "agg" and a[1].get("agg") == "adt" and str(a[1].get("adt", "")).startswith(("xs::", "xsbin::"))):
+        return None
+    adt = a[1]["adt"]
+    fields = a[1].get("fields") or []
+    ser = None
+    want = ("<impl serde::ser::Serialize for %s>::serialize" % adt, "<%s as serde::ser::Serialize>::serialize" % adt)
+    for cr in getattr(body.crate, "siblings", [body.crate]):
+        for d_, sb in cr.bodies.items():
+            if d_.endswith(want):
+                ser = ser or sb
+    if ser is None:
+        return None
+    out = {}
+    live = ser.live_blocks()
+    if any(si["kind"] != "variant" or not str(si.get("adt", "")).startswith(("core::result::Result", "core::ops::control_flow::ControlFlow"))
+           for bb, si in ser.switches() if bb in live):
+        return None        # only the plain derived shape: a sequence of `serialize_field(..)?`
+    for c in ser.calls():
+        if c.bb in live and c.fn.endswith("SerializeStruct::serialize_field") and len(c.args) >= 3:
+            key = q.const_strs(c.arg(1))
+            fld = q.last_field(c.arg(2))
+            if len(key) != 1 or fld not in fields:
+                return None
+            out[key[0]] = a[2][fields.index(fld)]
+    return out if len(out) == len(fields) else None
+
+
 def meta_keys(body, meta_expr):
     """{key: value_expr} for a meta argument built with json!({..}); None if it is not a json! object."""
     x = q.peel(meta_expr)
+    typed = _typed_meta(body, x)
+    if typed is not None:
+        return typed
     n_ = 0
     while x[0] == "call" and x[1].fn.endswith("Clone>::clone") and x[2] and n_ < 3:
         x = q.peel(x[2][0])
